@@ -258,7 +258,7 @@ def run(c):
             c.inconclusive('violation %s (%s) not reproduced on a second run: %s' % (v['signature'], leg['name'], [x['signature'] for x in again['violations']]))
         c.report(v['signature'], '[%s] %s' % (leg['name'], v['detail']), obj)
     if hits:
-        c.log('%d violating behaviours, %d distinct signatures: %s' % (len(hits), len(seen), sorted(seen)))
+        c.log('%d violating behaviours, %d distinct signatures (each re-executed before it was reported): %s' % (stats.get('violating_behaviours', 0), len(seen), sorted(seen)))
 
     # binding self-test: a corrupted expectation (the spec's last install removed) must be rejected by the replayer
     leg = legs[0]
